@@ -641,6 +641,48 @@ class World:
             else:
                 self.probes["torn_read_returned"] += 1
 
+    def op_restart(self, op):
+        """
+        Restart: every in-memory object is gone, only the disk survives.  The
+        file is read in a fresh interpreter and must give exactly what a read
+        in this (long-lived, history-laden) process gives, and equal the model.
+        """
+        rel = op["path"]
+        info = self.files.get(rel)
+        if info is None or info["state"] != "acked" or info["fmt"] == "geojson":
+            return
+        fmt, opts, doc = info["fmt"], info["opts"], info["doc"]
+        path = self.path(rel)
+        ropts = self.read_opts(fmt, opts)
+        spec = json.dumps({"fmt": fmt, "path": path, "ropts": ropts})
+        env = dict(os.environ, DATAITER_USE_NUMBA="0", PYTHONHASHSEED="0")
+        code = ("import json,sys; from dsim import e3_storage as E; s=json.loads(sys.argv[1]); "
+                "w=E.World('C12', '/nonexistent'); "
+                "r=w.do_read(s['fmt'], s['path'], s['ropts']); print('RESULT '+json.dumps(E.describe(r)))")
+        import subprocess
+        p = subprocess.run([sys.executable, "-c", code, spec], capture_output=True, text=True,
+                           env=env, timeout=300)
+        self.faults["restart"] = self.faults.get("restart", 0) + 1
+        self.abstract.append(("restart", fmt, self.sfx(rel)))
+        fresh = None
+        for line in p.stdout.splitlines():
+            if line.startswith("RESULT "):
+                fresh = json.loads(line[7:])
+        self.log.append({"op": "restart", "path": rel, "ok": fresh is not None})
+        if fresh is None:
+            self.viol("C12", "restart", f"C12.restart|{fmt}|{self.sfx(rel)}|fresh-interpreter-read-raises",
+                      f"reading {rel} in a fresh interpreter failed: {p.stderr[-300:]}")
+            return
+        try:
+            here = json.loads(json.dumps(describe(self.do_read(fmt, path, ropts))))
+        except Exception as e:
+            here = {"raised": repr(e)}
+        self.acked_reads += 1
+        if here != fresh:
+            self.viol("C12", "restart", f"C12.restart|{fmt}|{self.sfx(rel)}|fresh-interpreter-read-differs",
+                      f"read_{fmt}({rel}) gives {here!r} in the running process but {fresh!r} after a "
+                      f"restart (fresh interpreter)")
+
     def op_truncate(self, op):
         rel = op["path"]
         info = self.files.get(rel)
@@ -1014,10 +1056,11 @@ class World:
 
 class Gen:
 
-    def __init__(self, rng, prop, world):
+    def __init__(self, rng, prop, world, tier="quick"):
         self.rng = rng
         self.prop = prop
         self.w = world
+        self.tier = tier
         r = rng
         self.nops = r.choice([4, 6, 10, 16, 25])
         self.fault_free = r.random() < 0.35
@@ -1255,6 +1298,12 @@ class Gen:
                 op["fault"] = f
         return op
 
+    def g_restart(self):
+        p = self.existing()
+        if p is None:
+            return self.g_write()
+        return {"op": "restart", "path": p}
+
     def g_truncate(self):
         p = self.existing()
         if p is None:
@@ -1323,7 +1372,8 @@ class Gen:
         elif self.prop == "C14":
             table = [("write", 4), ("routes", 3), ("restrict", 4), ("truncate", 1), ("read", 1)]
         else:
-            table = [("write", 5), ("read", 3), ("truncate", 0.7), ("routes", 0.5), ("restrict", 0.5)]
+            table = [("write", 5), ("read", 3), ("truncate", 0.7), ("routes", 0.5), ("restrict", 0.5),
+                     ("restart", 0.01 if self.tier != "thorough" else 0.08)]
         if not self.w.files:
             return self.g_geo() if self.prop == "C18" else self.g_write()
         name = r.choices([n for n, w in table], [w for n, w in table])[0]
@@ -1335,7 +1385,7 @@ class Gen:
 _run_counter = [0]
 
 
-def _run(prop, rng=None, trace=None):
+def _run(prop, rng=None, trace=None, tier="quick"):
     os.environ.setdefault("DATAITER_USE_NUMBA", "0")
     import dataiter  # noqa
     signal.signal(signal.SIGXFSZ, signal.SIG_IGN)
@@ -1348,7 +1398,7 @@ def _run(prop, rng=None, trace=None):
     ops_done = []
     try:
         if trace is None:
-            gen = Gen(rng, prop, world)
+            gen = Gen(rng, prop, world, tier)
             config = gen.config()
             for _ in range(gen.nops):
                 op = gen.next_op()
@@ -1377,7 +1427,7 @@ def _run(prop, rng=None, trace=None):
 
 
 def run_seed(seed, prop, tier):
-    return _run(prop, rng=random.Random(seed))
+    return _run(prop, rng=random.Random(seed), tier=tier)
 
 
 def replay(trace, prop):
